@@ -69,41 +69,131 @@ class FlagModel:
         except Exception:
             return None
 
+    def _strip_test(self, e):
+        """bool(x), x != 0, x > 0, (x) == MASK with the same mask -> x"""
+        while True:
+            if isinstance(e, ast.Call) and dotted(e.func) in ("bool", "int") and len(e.args) == 1:
+                e = e.args[0]
+            elif isinstance(e, ast.Compare) and len(e.ops) == 1 and isinstance(e.ops[0], (ast.NotEq, ast.Gt)) and \
+                    isinstance(e.comparators[0], ast.Constant) and e.comparators[0].value == 0:
+                e = e.left
+            elif isinstance(e, ast.Compare) and len(e.ops) == 1 and isinstance(e.ops[0], ast.Eq) and isinstance(e.left, ast.BinOp) and \
+                    isinstance(e.left.op, ast.BitAnd) and any(unparse(x) == unparse(e.comparators[0]) for x in (e.left.left, e.left.right)):
+                e = e.left
+            else:
+                return e
+
+    def _bitfn(self, e, p):
+        """The expression as a function of the state word p: (A, O) with value (p & A) | O, or None."""
+        if e is None:
+            return None
+        if isinstance(e, ast.Name) and e.id == p:
+            return (-1, 0)
+        c = self._bit_of(e) if not (isinstance(e, ast.Name) and e.id == p) else None
+        if c is not None and not isinstance(c, bool):
+            return (0, c)
+        if isinstance(e, ast.Call) and dotted(e.func) == "int" and len(e.args) == 1:
+            return self._bitfn(e.args[0], p)
+        if isinstance(e, ast.UnaryOp) and isinstance(e.op, ast.Invert):
+            f = self._bitfn(e.operand, p)
+            if f is not None and f[0] == 0:
+                return (0, ~f[1])
+            return None
+        if isinstance(e, ast.BinOp) and isinstance(e.op, (ast.BitOr, ast.BitAnd)):
+            l, r = self._bitfn(e.left, p), self._bitfn(e.right, p)
+            if l is None or r is None:
+                return None
+            if isinstance(e.op, ast.BitOr):
+                o = l[1] | r[1]
+                return (l[0] | r[0], o)
+            o = l[1] & r[1]
+            return (((l[0] | l[1]) & (r[0] | r[1])) & ~o, o)
+        return None
+
+    def _ret_paths(self, fi, flag_param):
+        """(value of the flag parameter on the path: True/False/None, returned expression) for every path of a
+        branch-on-the-flag function; anything else yields (None, None) so that the caller reports it."""
+        from ..model import inline_locals
+
+        def cond_of(test):
+            t = test
+            neg = False
+            while isinstance(t, ast.UnaryOp) and isinstance(t.op, ast.Not):
+                neg, t = not neg, t.operand
+            if isinstance(t, ast.Call) and dotted(t.func) == "bool" and len(t.args) == 1:
+                t = t.args[0]
+            if isinstance(t, ast.Compare) and len(t.ops) == 1 and isinstance(t.ops[0], (ast.Is, ast.Eq)) and \
+                    isinstance(t.comparators[0], ast.Constant) and t.comparators[0].value in (True, False):
+                if t.comparators[0].value is False:
+                    neg = not neg
+                t = t.left
+            if isinstance(t, ast.Name) and flag_param is not None and t.id == flag_param:
+                return not neg
+            return None
+
+        def expr_paths(e, c):
+            if isinstance(e, ast.IfExp):
+                k = cond_of(e.test)
+                if k is None:
+                    yield (None, None)
+                    return
+                if c in (None, k):
+                    yield from expr_paths(e.body, k)
+                if c in (None, not k):
+                    yield from expr_paths(e.orelse, not k)
+                return
+            yield (c, inline_locals(fi.node, e))
+
+        def walk(stmts, c):
+            """yields paths; returns True when the list always returns"""
+            for i, st in enumerate(stmts):
+                if isinstance(st, ast.Return):
+                    yield from expr_paths(st.value, c)
+                    return
+                if isinstance(st, ast.If):
+                    k = cond_of(st.test)
+                    if k is None:
+                        yield (None, None)
+                        return
+                    rest = stmts[i + 1:]
+                    if c in (None, k):
+                        yield from walk(st.body + rest, k)
+                    if c in (None, not k):
+                        yield from walk(st.orelse + rest, not k)
+                    return
+                if isinstance(st, (ast.Expr, ast.Assign, ast.AnnAssign, ast.Pass)):
+                    continue
+                yield (None, None)
+                return
+            yield (c, None)
+        return list(walk(fi.node.body, None))
+
     def _parse(self, rule):
         for flag in FLAGS:
             g = self.cls.methods.get("is_" + flag)
             s = self.cls.methods.get("set_" + flag)
             if g is None or s is None:
                 raise AnalysisError("ClientServiceState.is_%s/set_%s vanished" % (flag, flag))
-            # getter: return bool(p & BIT)
+            # getter: every path returns a test of one mask of the state word; setter: flag true -> p | BIT, false -> p & ~BIT
+            # (decided on the bit functions p -> (p & A) | O of the returned expressions, path by path, not on their spelling)
             gb = None
-            rets = [n for n in ast.walk(g.node) if isinstance(n, ast.Return)]
-            for r in rets:
-                for b in ast.walk(r):
-                    if isinstance(b, ast.BinOp) and isinstance(b.op, ast.BitAnd):
-                        for side, other in ((b.left, b.right), (b.right, b.left)):
-                            bit = self._bit_of(side)
-                            if bit is not None and isinstance(other, ast.Name) and other.id == g.params[0]:
-                                gb = bit
-            # setter: if flagparam: return p | BIT  else: return p & ~BIT
+            gfn = [self._bitfn(self._strip_test(e), g.params[0]) for c, e in self._ret_paths(g, None)]
+            if gfn and all(f is not None and f[1] == 0 for f in gfn) and len({f[0] for f in gfn}) == 1:
+                gb = gfn[0][0]
             sb_set = sb_clr = None
             p0 = s.params[0]
             p1 = s.params[1] if len(s.params) > 1 else None
-            for st in ast.walk(s.node):
-                if isinstance(st, ast.If) and isinstance(st.test, ast.Name) and st.test.id == p1:
-                    for r in [x for b in st.body for x in ast.walk(b) if isinstance(x, ast.Return)]:
-                        v = r.value
-                        if isinstance(v, ast.BinOp) and isinstance(v.op, ast.BitOr):
-                            for side, other in ((v.left, v.right), (v.right, v.left)):
-                                if isinstance(other, ast.Name) and other.id == p0 and self._bit_of(side) is not None:
-                                    sb_set = self._bit_of(side)
-                    for r in [x for b in st.orelse for x in ast.walk(b) if isinstance(x, ast.Return)]:
-                        v = r.value
-                        if isinstance(v, ast.BinOp) and isinstance(v.op, ast.BitAnd):
-                            for side, other in ((v.left, v.right), (v.right, v.left)):
-                                if isinstance(other, ast.Name) and other.id == p0 and isinstance(side, ast.UnaryOp) \
-                                        and isinstance(side.op, ast.Invert) and self._bit_of(side.operand) is not None:
-                                    sb_clr = self._bit_of(side.operand)
+            sets, clrs = [], []
+            for c, e in self._ret_paths(s, p1):
+                f = self._bitfn(e, p0)
+                if c in (True, None):
+                    sets.append(f)
+                if c in (False, None):
+                    clrs.append(f)
+            if sets and all(f is not None and (f[0] | f[1]) == -1 and f[1] > 0 for f in sets) and len({f[1] for f in sets}) == 1:
+                sb_set = sets[0][1]
+            if clrs and all(f is not None and f[1] == 0 and f[0] < 0 for f in clrs) and len({f[0] for f in clrs}) == 1:
+                sb_clr = ~clrs[0][0]
             desc = {"flag": flag, "getter_bit": gb, "set_bit": sb_set, "clear_bit": sb_clr}
             if gb is not None and gb == sb_set == sb_clr and gb > 0 and (gb & (gb - 1)) == 0:
                 rule.ok(desc)
@@ -340,6 +430,13 @@ class ResyncModel:
                 raise _Return()
             if isinstance(st, ast.Assign) and len(st.targets) == 1 and isinstance(st.targets[0], ast.Name):
                 env[st.targets[0].id] = self._ev(st.value, env)
+                continue
+            if isinstance(st, ast.Assign) and len(st.targets) == 1 and isinstance(st.targets[0], (ast.Tuple, ast.List)) and \
+                    isinstance(st.value, (ast.Tuple, ast.List)) and len(st.value.elts) == len(st.targets[0].elts) and \
+                    all(isinstance(x, ast.Name) for x in st.targets[0].elts):
+                vals = [self._ev(v, env) for v in st.value.elts]
+                for x, v in zip(st.targets[0].elts, vals):
+                    env[x.id] = v
                 continue
             if isinstance(st, ast.Assign) and len(st.targets) == 1 and isinstance(st.targets[0], ast.Subscript) and \
                     dotted(st.targets[0].value) == "self.service_meta":
